@@ -25,6 +25,7 @@ def run(ck):
     ck.rule("R1", "only assignments outside `useful` are deleted; `useful` contains every unkillable destination and the leaf outputs", floor=9)
     ck.rule("R2", "pc, IRDst and exception_flags are immutable for the SSA transformation", floor=2)
     ck.rule("R3", "SSA simplifier pipeline order", floor=2)
+    ck.rule("R4", "the aliasing test of expression propagation measures each memory access with its own base, offset and size", floor=4)
 
     m = ck.repo.mod(DF)
     fn = m.func("DeadRemoval.is_unkillable_destination")
@@ -134,3 +135,46 @@ def run(ck):
     fn = sm.func("IRCFGSimplifierSSA.__init__")
     ok = any(isinstance(n, ast.Assign) and norm(n.targets[0]) == "self.deadremoval" and norm(n.value) == "DeadRemoval(self.lifter, self.all_ssa_vars)" for n in walk_body(fn))
     ck.ob("R3", "IRCFGSimplifierSSA.__init__:deadremoval-mapping", ok, sm.where(fn), "the SSA dead-removal pass does not know the SSA variable -> register mapping")
+
+    # ---------------------------------------------------------------- R4 may_interfer: no mix-up between the two accesses
+    # State.may_interfer decides whether a store kills a known equality; each access's byte interval must be built from that
+    # access only (its offset, its size, its base mask). Entities are found from `<e>_base, <e>_offset = get_expr_base_offset(<e>.ptr)`.
+    df = ck.repo.mod(DF)
+    fn = df.func("State.may_interfer")
+    ents = []
+    for n in walk_body(fn):
+        if isinstance(n, ast.Assign) and isinstance(n.targets[0], ast.Tuple) and isinstance(n.value, ast.Call) and callee_attr(n.value) == "get_expr_base_offset" \
+                and n.value.args and isinstance(n.value.args[0], ast.Attribute) and isinstance(n.value.args[0].value, ast.Name):
+            ents.append(n.value.args[0].value.id)
+    ck.need(len(ents) == 2, "State.may_interfer: the two memory accesses were not identified (%s)" % ents)
+
+    def entity_of(name):
+        for e in ents:
+            if name == e or name.startswith(e + "_"):
+                return e
+        return None
+    k = 0
+    for n in walk_body(fn):
+        if not isinstance(n, ast.If):
+            continue
+        te = set(entity_of(x.id) for x in ast.walk(n.test) if isinstance(x, ast.Name)) - set([None])
+        if len(te) != 1 or "mask" not in norm(n.test):
+            continue
+        e = list(te)[0]
+        other = [x for x in ents if x != e][0]
+        for label, blk in (("fits", n.body), ("wraps", n.orelse)):
+            used = set(entity_of(x.id) for st in blk for x in ast.walk(st) if isinstance(x, ast.Name)) - set([None])
+            k += 1
+            ck.ob("R4", "State.may_interfer:%s-interval:%s" % (e, label), other not in used, df.where(n),
+                  "the byte interval of `%s` (branch: %s) is computed with a quantity of `%s`: accesses of different widths are "
+                  "compared over the wrong range and a partial overwrite is not seen" % (e, label, other))
+    ck.need(k == 4, "State.may_interfer: expected the fits/wraps branches of both accesses, found %d" % k)
+    # the verdict: disjoint intervals -> no interference, anything else -> interference
+    txt = norm(ast.Module(body=fn.body, type_ignores=[]))
+    ok = "if (interval1 & interval2).empty:\n" in txt and any(isinstance(x, ast.If) and ".empty" in norm(x.test) and any(isinstance(y, ast.Continue) for y in x.body)
+                                                                for x in walk_body(fn))
+    ck.ob("R4", "State.may_interfer:disjoint-means-independent", ok, df.where(fn), "only an empty intersection of the two byte intervals may clear a pair")
+    ok = any(isinstance(x, ast.If) and "!=" in norm(x.test) and "_base" in norm(x.test) and any(isinstance(y, ast.Return) and norm(y.value) == "True" for y in x.body)
+             for x in walk_body(fn))
+    ck.ob("R4", "State.may_interfer:different-bases-interfere", ok, df.where(fn), "accesses with different symbolic bases must be assumed to alias")
+
